@@ -362,3 +362,32 @@ def show(t):
     if tag == 'app':
         return '(%s %s)' % (show(t[1]), show(t[2]))
     return '(%%_%d::%s. %s)' % (t[1], show_type(t[2]), show(t[3]))
+
+
+# ------------------------------------------------------------------ back to JSON (de Bruijn computed here)
+def to_jtype(T):
+    if T[0] in ('tv', 'stv'):
+        return [T[0], T[1]]
+    return ['tc', T[1]] + [to_jtype(a) for a in T[2]]
+
+
+def to_jterm(t, env=()):
+    """Named term -> JSON term (vlib.codec encoding).  env: tuple of binder uids, innermost first."""
+    tag = t[0]
+    if tag == 'var':
+        return ['v', t[1], to_jtype(t[2])]
+    if tag == 'svar':
+        return ['sv', t[1], to_jtype(t[2])]
+    if tag == 'const':
+        return ['c', t[1], to_jtype(t[2])]
+    if tag == 'app':
+        return ['app', to_jterm(t[1], env), to_jterm(t[2], env)]
+    if tag == 'lam':
+        return ['abs', t[4] if isinstance(t[4], str) else 'x', to_jtype(t[2]), to_jterm(t[3], (t[1],) + env)]
+    if tag == 'bv':
+        if t[1] in env:
+            return ['b', env.index(t[1])]
+        raise RefError('out-of-scope bound variable')
+    if tag == 'loose':
+        return ['b', t[1] + len(env)]
+    raise RefError('bad term')
